@@ -968,11 +968,28 @@ class RTDCWriter:
                 **self.compression_kwargs)
             line_offset = 0
         else:
-            # TODO: test whether fixed length is long enough!
-            # Resize the dataset
             txt_dset = group[name]
             line_offset = txt_dset.shape[0]
-            txt_dset.resize(line_offset + lnum, axis=0)
+            if (txt_dset.dtype.kind == "S"
+                    and max_length > txt_dset.dtype.itemsize):
+                # The fixed string length of the existing dataset is too
+                # short for the new lines (they would be truncated):
+                # Recreate the dataset with the correct string length.
+                prev_lines = list(txt_dset)
+                del group[name]
+                txt_dset = group.create_dataset(
+                    name,
+                    shape=(line_offset + lnum,),
+                    dtype=f"S{max_length}",
+                    maxshape=(None,),
+                    chunks=True,
+                    fletcher32=True,
+                    **self.compression_kwargs)
+                for ii, lbytes in enumerate(prev_lines):
+                    txt_dset[ii] = lbytes
+            else:
+                # Resize the dataset
+                txt_dset.resize(line_offset + lnum, axis=0)
 
         # Write the text data line-by-line
         for ii, lbytes in enumerate(lines_as_bytes):
